@@ -58,17 +58,8 @@ fn proxy_impl(attr: TokenStream, input: TokenStream) -> Result<TokenStream, Erro
                 chain_extension_impls.push(extension_impl);
             }
 
-            // Generate regular method implementation
-            let method_impl = generate_method_impl(
-                method,
-                &interface_name,
-                &trait_def.generics,
-                &method_attrs,
-                &crate_path,
-            )?;
-            methods.push(method_impl);
-
-            // Generate chain method
+            // Generate chain method (before the regular method, which removes the parameter
+            // attributes from the signature)
             let (chain_trait, chain_impl) = generate_chain_method(
                 method,
                 &interface_name,
@@ -82,6 +73,16 @@ fn proxy_impl(attr: TokenStream, input: TokenStream) -> Result<TokenStream, Erro
             if !chain_impl.is_empty() {
                 chain_method_impls.push(chain_impl);
             }
+
+            // Generate regular method implementation
+            let method_impl = generate_method_impl(
+                method,
+                &interface_name,
+                &trait_def.generics,
+                &method_attrs,
+                &crate_path,
+            )?;
+            methods.push(method_impl);
         }
     }
 
